@@ -2,7 +2,7 @@
     proofs in Loop/Proofs.v over the interleaving model Loop/Model.v (all frame lists, all
     reachable states, any number of flushes, chained flushes, flushes naming each other). *)
 From Coq Require Import NArith List Bool Arith Relations String.
-From P9V Require Import Loop.Model Loop.Proofs Loop.Tie gen.LoopGen.
+From P9V Require Import Loop.Model Loop.Proofs Loop.Tie Loop.Variants gen.LoopGen.
 Import ListNotations.
 Open Scope list_scope.
 
@@ -74,16 +74,18 @@ Theorem C14_flush_answered : forall inp s i t old, reachable inp s ->
   exists l s', progress_label l = true /\ exec inp l s = Some s'.
 Proof. intros inp s i t old R _. apply progress_at. now apply reachable_Inv. Qed.
 
-(* NOTE: "never cancels, duplicates or suppresses" holds in the model because it has no step that could (a flush only
-   waits); the content of the clause is therefore (a) the tie: tflush.handle's body is exactly "wait on the captured
-   channel; return Rflush" and handleRequest is the tied event table, and (b) the harness, which checks on the observed
-   frames that the flushed request gets exactly one reply of its own type or Rlerror ([solicited]).  "Stopped
-   executing" = every backend call made on its behalf is over and none starts later: in the model backend calls exist
-   only between LEnter and LExit inside handle; that the code makes none outside handle is the tie
-   C14_tie_no_background_work (no go statement / timer / worker hand-off in package p9 and the module packages it
-   imports, except the receiver hand-off and the accept loop) and the monitor of the harness (every File method records
-   enter and exit; at each observed Rflush none on behalf of the flushed request is running, none begins later, and the
-   Rflush does not precede the release of the gate the request is held at - event order, no timing). *)
+(* NOTE: in Loop/Model.v itself "never cancels, duplicates or suppresses" and "no backend call on its behalf outside handle"
+   hold because the model has no step that could do otherwise; C14_no_effect below is therefore C06 restated.  The
+   statements WITH content are C14_flushed_request_answered / C14_no_call_outside_handler / C14_detached_call_refutes /
+   C14_suppressed_reply_refutes further down (Loop/Variants.v: the model widened so that detaching a backend call and
+   skipping a flushed request's reply are expressible, proved unreachable for the flag values the code has, and proved
+   fatal otherwise); the flag values are tied to the source by C14_tie_no_background_work (no go statement / timer /
+   worker hand-off in package p9 and the module packages it imports, except the receiver hand-off and the accept loop),
+   C14_tie_reply_path (ClearTag, lock, send, unlock, put, return after handle, under no condition) and C14_tie_tflush_handle
+   (wait on the captured channel; return Rflush).  The harness checks the same on the observed frames and backend log:
+   exactly one reply of its own type or Rlerror for the flushed request ([solicited]); every File method records enter
+   and exit, at each observed Rflush none on behalf of the flushed request is running, none begins later, and the Rflush
+   does not precede the release of the gate the request is held at - event order, no timing. *)
 (** No effect on the flushed request: it still gets exactly one reply, of its own type —
     the flush neither cancels, duplicates nor suppresses it (its steps never consult a later
     request, and the reply log has at most one entry per request). *)
@@ -98,6 +100,40 @@ Proof.
   - now apply progress_at.
 Qed.
 Print Assumptions C14_no_effect.
+
+(** The same clauses as statements with content, on the model widened by what it cannot otherwise express
+    (Loop/Variants.v: ghost lists of backend calls running outside their handler, of requests captured by a flush, of
+    skipped replies; flags v_guard / v_detach / v_suppress).  With the flags as in the code ([faithful] - tied by
+    C14_tie_capture, C14_tie_no_background_work, C14_tie_reply_path) the widened model has exactly the behaviours of
+    Loop/Model.v, no backend call ever runs outside its request's handler, and a request that a Tflush captured is
+    answered exactly once, with its own kind of reply, whenever its goroutine is through and the peer still reads -
+    for all inputs and interleavings. *)
+Theorem C14_flushed_request_answered : forall inp vs c, vreachable faithful inp vs -> In c (flushed vs) ->
+  final (pc (base vs) c) = true -> wbroken (base vs) = false ->
+  exists r, In (c, r) (replies (base vs)) /\ NoDup (map fst (replies (base vs))) /\
+            exists f, nth_error inp c = Some f /\ reply_ok f r.
+Proof. exact faithful_flushed_answered. Qed.
+Print Assumptions C14_flushed_request_answered.
+Theorem C14_no_call_outside_handler : forall inp vs, vreachable faithful inp vs ->
+  reachable inp (base vs) /\ det vs = [] /\ skipped vs = [] /\ (forall c, In c (flushed vs) -> accepted (pc (base vs) c) = true).
+Proof. exact faithful_sound. Qed.
+Print Assumptions C14_no_call_outside_handler.
+(** Each of the two tied facts is needed: if a handler can leave a backend call running (a go statement, timer or worker
+    hand-off anywhere below it; seeded C14-m4, audit HIGH 1), an Rflush is written while a call made on behalf of the
+    flushed request still runs; if the reply path may skip the send for a flushed request (seeded C14-m3), the flushed
+    request ends unanswered although the peer reads. *)
+Theorem C14_detached_call_refutes : exists vs,
+  vreachable v_detaching [FReq 1 KOp; FReq 2 (KFlush 1)] vs /\
+  In (1, rflush_reply) (replies (base vs)) /\ In 0 (det vs) /\ cleared (pc (base vs) 0) = true.
+Proof. exact detached_call_outlives_rflush. Qed.
+Theorem C14_suppressed_reply_refutes : exists vs,
+  vreachable v_suppressing [FReq 1 KOp; FReq 2 (KFlush 1)] vs /\
+  (forall i, i < 2 -> final (pc (base vs) i) = true) /\ replies (base vs) = [(1, rflush_reply)] /\
+  wbroken (base vs) = false /\ In 0 (flushed vs) /\ In 0 (skipped vs).
+Proof. exact suppressed_reply_never_sent. Qed.
+Print Assumptions C14_suppressed_reply_refutes.
+Theorem C14_tie_reply_path : reply_path_unconditional = true.
+Proof. exact tie_reply_path_unconditional. Qed.
 
 (** Ties to the source. *)
 Theorem C14_tie_capture : capture_under_recvMu = true /\ capture_guarded = true /\
